@@ -101,6 +101,15 @@ struct InFlight
    Stats*              stats = nullptr;
 }  g_inflight;
 
+/// all counters exist before the first run: a resize in the middle of a
+/// simulated run would be executed code (schedule points, budget edges) that
+/// depends on the history of the process
+void initStats( Stats& st)
+{
+   st.faults.resize( harness().faultKinds().size() + 1);
+   st.probes.resize( harness().probeNames().size() + 1);
+}
+
 int cmdGen( int argc, char* argv[])
 {
    if (argc < 4) return 2;
@@ -118,6 +127,7 @@ int cmdRun( int argc, char* argv[])
    const Json&  p = plan.has( "plan") ? plan.get( "plan") : plan;
    Stats        st;
    std::string  trace;
+   initStats( st);
    g_inflight.batch = false;
    g_inflight.plan = &p;
    g_inflight.stats = &st;
@@ -133,7 +143,7 @@ int cmdRun( int argc, char* argv[])
 
 int cmdBatch( int argc, char* argv[])
 {
-   std::string  tier = "quick", status_file, hash_file;
+   std::string  tier = "quick", status_file, hash_file, runlog_file;
    uint64_t     base = 1, start = 0, stride = 1, count = 1000, samples = 2, recheck = 100;
    double       deadline = 0;
    for (int k = 2; k + 1 < argc; k += 2)
@@ -148,6 +158,7 @@ int cmdBatch( int argc, char* argv[])
       else if (a == "--deadline") deadline = atof( v);
       else if (a == "--status") status_file = v;
       else if (a == "--hashes") hash_file = v;
+      else if (a == "--runlog") runlog_file = v;
       else if (a == "--samples") samples = strtoull( v, nullptr, 0);
       else if (a == "--recheck") recheck = strtoull( v, nullptr, 0);
       else return 2;
@@ -167,9 +178,14 @@ int cmdBatch( int argc, char* argv[])
       marker[ 2] = 0;      // runs completed
    }
 
+   // per run identity, for the determinism self test
+   std::ofstream  runlog;
+   if (!runlog_file.empty()) runlog.open( runlog_file, std::ios::trunc);
+
    using clock = std::chrono::steady_clock;
    auto const  t0 = clock::now();
    Stats       st;
+   initStats( st);
    uint64_t    runs = 0, nontrivial = 0, failures = 0, sim_time = 0;
    uint64_t    rechecked = 0, recheck_mismatch = 0, events = 0;
    std::unordered_set< uint64_t>  hashes;
@@ -197,6 +213,8 @@ int cmdBatch( int argc, char* argv[])
       Result  r = harness().run( plan, st, nullptr);
       ++runs;
       ++outcomes[ r.outcome];
+      if (runlog.is_open())
+         runlog << idx << " " << hex( seed) << " " << r.outcome << " " << hex( r.hash) << "\n";
       sim_time += r.sim_time;
       if (r.nontrivial)
       {
@@ -233,6 +251,7 @@ int cmdBatch( int argc, char* argv[])
       if (redo)
       {
          Stats   scratch;
+         initStats( scratch);
          Json    again = Json::parse( plan.dump());
          Result  r2 = harness().run( again, scratch, nullptr);
          ++rechecked;
